@@ -159,6 +159,8 @@ pub fn main(args: &[String]) -> i32 {
             Some(a) => a.iter().filter_map(|x| x.as_str().map(|s| s.to_string())).collect(),
             None => entries.clone(),
         };
+        let mut runs: Vec<Value> = Vec::new();
+        let mut all_ident = true;
         for entry in &ents {
             crate::term::reset_intern();
             let obs = run_entry(entry, text);
@@ -176,24 +178,28 @@ pub fn main(args: &[String]) -> i32 {
             };
             if identical {
                 n_ident += 1;
+            } else {
+                all_ident = false;
             }
-            let sampled = sample_every > 0 && n_runs % sample_every == 0;
-            if !identical || forward_all || sampled {
-                n_fwd += 1;
-                let mut m = oj.as_object().unwrap().clone();
-                m.insert("case".into(), json!(n_cases));
-                m.insert("entry".into(), json!(entry));
-                m.insert("text".into(), text_v.clone());
-                m.insert("expect".into(), json!(expect));
-                m.insert("ident".into(), json!(identical));
-                if let Some(t) = rec.get("table") {
-                    m.insert("table".into(), t.clone());
+            let mut m = oj.as_object().unwrap().clone();
+            m.insert("entry".into(), json!(entry));
+            runs.push(Value::Object(m));
+        }
+        let sampled = sample_every > 0 && n_cases % sample_every == 0;
+        if !all_ident || forward_all || sampled {
+            n_fwd += 1;
+            let mut m = Map::new();
+            m.insert("case".into(), json!(n_cases));
+            m.insert("text".into(), text_v.clone());
+            m.insert("expect".into(), json!(expect));
+            m.insert("ident".into(), json!(all_ident));
+            m.insert("runs".into(), Value::Array(runs));
+            for k in ["table", "tag", "dmg"] {
+                if let Some(t) = rec.get(k) {
+                    m.insert(k.into(), t.clone());
                 }
-                if let Some(t) = rec.get("tag") {
-                    m.insert("tag".into(), t.clone());
-                }
-                let _ = writeln!(out, "{}", Value::Object(m));
             }
+            let _ = writeln!(out, "{}", Value::Object(m));
         }
         // the leaked text is tiny; free it when nothing can refer to it any more
         unsafe { drop(Box::from_raw(text as *const str as *mut str)) };
